@@ -60,15 +60,16 @@ EXPECTED_PROBES = {
     'C01': ['slice_starts_on_file_bound', 'slice_ends_on_file_bound', 'slice_spans_files',
             'negative_bound', 'part_of_length_1', 'three_or_more_parts', 'header_offset',
             'array_index_with_cols', 'cbin_cache_eviction_possible', 'numpy_scalar_index',
-            'file_order_differs_from_sorted_names',
+            'file_order_differs_from_sorted_names', 'non_native_byte_order', 'npy_fortran_order',
             'cbin_index_list_not_implemented'],
     'C02': ['reflected_operator', 'cols_before_arith', 'cols_after_arith', 'depth_ge_3',
             'sibling_reread', 'integer_division', 'same_operator_twice_in_a_row',
             'numpy_scalar_operand', 'boolean_mask_selection',
-            'equal_cols_on_two_handles'],
+            'equal_cols_on_two_handles', 'inexact_pow_chain'],
     'C03': ['spike_on_chunk_bound', 'spike_at_0', 'spike_at_last', 'window_exceeds_start',
             'window_exceeds_end', 'window_longer_than_recording', 'unsigned_spikes',
             'minus_one_channel', 'multi_chunk_export', 'cbin_export_cached', 'odd_window',
+            'reader_used_between_routes',
             'store_lookup_permuted', 'float_factor', 'int_factor', 'store_query_with_minus_one'],
 }
 
@@ -316,6 +317,13 @@ def gen(rng, prop, tier):
         ops = []
         for _ in range(rng.randint(1, 5)):
             r = rng.random()
+            if ops and rng.random() < 0.25:
+                # another use of the same reader object between two waveform routes
+                a = rng.randrange(n)
+                ops.append({'op': 'touch', 'kind': rng.choice(['cols', 'cols', 'mul', 'derive_cols']),
+                            'a': a, 'b': rng.randint(a + 1, n),
+                            'cols': rng.sample(range(c), rng.randint(1, c)),
+                            'k': rng.choice([2, 3, -1, 0.5])})
             if r < 0.3:
                 ids = sorted(rng.sample(range(len(spikes)), rng.randint(1, min(len(spikes), 10))))
                 row = rng.sample(range(c), rng.randint(1, min(c, 4)))
@@ -447,10 +455,15 @@ def validate(plan):
 # Execution
 # --------------------------------------------------------------------------------------------------
 
+def _same_dtype(a, b):
+    """dtype equality up to byte order (a byte-swapped block holds the same values)."""
+    return np.dtype(a).newbyteorder('=') == np.dtype(b).newbyteorder('=')
+
+
 def _eq(a, b):
     a = np.asarray(a)
     b = np.asarray(b)
-    if a.shape != b.shape or a.dtype != b.dtype:
+    if a.shape != b.shape or not _same_dtype(a.dtype, b.dtype):
         return False
     if a.dtype.kind in 'fc':
         return bool(np.array_equal(a, b, equal_nan=True))
@@ -464,7 +477,7 @@ def _eq_ulps(a, b, ulps=8):
     array and a block of rows; integer results stay exact."""
     a = np.asarray(a)
     b = np.asarray(b)
-    if a.shape != b.shape or a.dtype != b.dtype:
+    if a.shape != b.shape or not _same_dtype(a.dtype, b.dtype):
         return False
     if a.dtype.kind not in 'fc':
         return bool(np.array_equal(a, b))
@@ -481,6 +494,64 @@ def _eq_ulps(a, b, ulps=8):
         tol = ulps * eps * np.maximum(np.abs(a[fin]), np.abs(b[fin])).astype(np.float64) \
             + np.finfo(a.dtype).tiny
         return bool(np.all(d <= tol))
+
+
+POW_ULPS = 16
+
+
+def _env_step(E, E2, env, o, k):
+    """Envelope of admissible values after one more operator (DESIGN.md 11: float `**` is the one
+    operator NumPy does not round correctly, and its SIMD and scalar loops may differ in the last
+    bits between the whole array and a block of rows; every later operator then propagates -- and
+    under cancellation amplifies -- that difference). env = (LO, HI, UND) or None for an exact
+    chain. All other operators are correctly rounded and piecewise monotone, so the image of an
+    interval is spanned by the images of its end points; where it is not (a pole or a sign change
+    inside the interval) the element is marked undecidable."""
+    is_pow = o in ('pow', 'rpow') and np.asarray(E2).dtype.kind == 'f'
+    if env is None and not is_pow:
+        return None
+    if env is None:
+        LO, HI, UND = E, E, np.zeros(np.shape(E), dtype=bool)
+    else:
+        LO, HI, UND = env
+    with np.errstate(all='ignore'):
+        fl = np.asarray(_apply_eager(LO, o, k))
+        fh = np.asarray(_apply_eager(HI, o, k))
+        mid = np.asarray(E2)
+        nl, nh, nm = np.isnan(fl), np.isnan(fh), np.isnan(mid)
+        und = UND | (nl != nm) | (nh != nm)
+        lo64, hi64 = np.asarray(LO, dtype=np.float64), np.asarray(HI, dtype=np.float64)
+        wide = lo64 != hi64
+        has0 = (lo64 <= 0) & (hi64 >= 0)
+        kk = float(k) if k is not None else 0.0
+        if o in ('rtruediv', 'rfloordiv', 'pow'):
+            und = und | (wide & has0)
+        if o in ('truediv', 'floordiv') and kk == 0:
+            und = und | has0
+        if o == 'rpow':
+            if kk < 0:
+                und = und | wide
+            elif kk == 0:
+                und = und | (wide & has0)
+        newlo = np.fmin(np.fmin(fl, fh), mid)
+        newhi = np.fmax(np.fmax(fl, fh), mid)
+        if is_pow:
+            sp_lo = np.spacing(np.abs(newlo))
+            sp_hi = np.spacing(np.abs(newhi))
+            newlo = np.where(np.isfinite(newlo), newlo - POW_ULPS * sp_lo, newlo).astype(mid.dtype)
+            newhi = np.where(np.isfinite(newhi), newhi + POW_ULPS * sp_hi, newhi).astype(mid.dtype)
+    return newlo, newhi, und
+
+
+def _in_envelope(got, mid, lo, hi, und):
+    got = np.asarray(got)
+    mid = np.asarray(mid)
+    if got.shape != mid.shape or not _same_dtype(got.dtype, mid.dtype):
+        return False
+    with np.errstate(all='ignore'):
+        ng, nm = np.isnan(got), np.isnan(mid)
+        ok = und | (ng & nm) | (~ng & ~nm & (lo <= got) & (got <= hi))
+    return bool(np.all(ok))
 
 
 def _describe(a):
@@ -579,7 +650,7 @@ def _execute(plan, ctx, cfg, prop):
                   lambda: {'got': list(reader.shape), 'expected': [n, c]})
         ctx.check(reader.n_samples == n, 'reader-n_samples')
         ctx.check(reader.n_channels == c, 'reader-n_channels')
-        ctx.check(np.dtype(reader.dtype) == A.dtype, 'reader-dtype',
+        ctx.check(_same_dtype(reader.dtype, A.dtype), 'reader-dtype',
                   lambda: {'got': str(reader.dtype), 'expected': str(A.dtype)})
         ctx.check(abs(reader.duration - n / cfg['sr']) <= 1e-12 * max(1.0, n / cfg['sr']),
                   'reader-duration', lambda: {'got': reader.duration, 'expected': n / cfg['sr']})
@@ -593,6 +664,7 @@ def _execute(plan, ctx, cfg, prop):
 
     handles = {0: reader}
     eager = {0: A}
+    env = {0: None}
     depth = {0: 0}
     cols_seen = {0: False}
     arith_seen = {0: False}
@@ -617,7 +689,13 @@ def _execute(plan, ctx, cfg, prop):
                 return
             raise
         ctx.ev(step, 'read', h, np.asarray(got))
-        same = _eq(got, expected) if depth[h] == 0 else _eq_ulps(got, expected)
+        if env[h] is not None and isinstance(got, np.ndarray):
+            with np.errstate(all='ignore'):
+                lo, hi, und = [_expected_read(x, item, cols) for x in env[h]]
+            same = _in_envelope(got, expected, lo, hi, und)
+            ctx.probe('inexact_pow_chain')
+        else:
+            same = _eq(got, expected) if depth[h] == 0 else _eq_ulps(got, expected)
         ctx.check(isinstance(got, np.ndarray) and same, clause,
                   lambda: {'step': step, 'item': item, 'cols': cols, 'got': _describe(got),
                            'expected': _describe(expected), 'parts': cfg['parts']})
@@ -677,10 +755,12 @@ def _execute(plan, ctx, cfg, prop):
                         # keep handle numbering stable: the slot aliases its parent
                         handles[new] = handles[h]
                         eager[new] = eager[h]
+                        env[new] = env[h]
                         depth[new] = depth[h]
                         cols_seen[new] = cols_seen[h]
                         arith_seen[new] = arith_seen[h]
                         continue
+                    env2 = _env_step(E, E2, env[h], op['o'], kval)
                     H2 = ctx.real('derive', _apply_lazy, handles[h], op['o'], kval)
                     if op['o'].startswith('r'):
                         ctx.probe('reflected_operator')
@@ -703,6 +783,7 @@ def _execute(plan, ctx, cfg, prop):
                         ctx.probe('equal_cols_on_two_handles')
                     cols_used[key] = h
                     E2 = E[:, co]
+                    env2 = None if env[h] is None else tuple(x[:, co] for x in env[h])
                     H2 = ctx.real('select', lambda: handles[h][:, co])
                     if arith_seen[h]:
                         ctx.probe('cols_after_arith')
@@ -713,6 +794,7 @@ def _execute(plan, ctx, cfg, prop):
                           lambda: {'type': type(H2).__name__})
                 handles[new] = H2
                 eager[new] = E2
+                env[new] = env2
                 depth[new] = depth[h] + 1
                 if depth[new] >= 3:
                     ctx.probe('depth_ge_3')
@@ -812,6 +894,22 @@ def _execute(plan, ctx, cfg, prop):
                       lambda: {'step': step, 'spikes': [sc['spikes'][i] for i in ids], 'w': w,
                                'n': n, 'chans': op['chans'], 'got': _describe(got),
                                'expected': _describe(ref)})
+        elif k == 'touch':
+            ctx.op('touch', changes_state=False)
+            a, b, co = op['a'], op['b'], list(op['cols'])
+            if op['kind'] == 'cols':
+                got = ctx.real('read', lambda: reader[a:b, co])
+                ref = A[a:b][:, co]
+            elif op['kind'] == 'derive_cols':
+                got = ctx.real('read', lambda: reader[:, co][a:b])
+                ref = A[a:b][:, co]
+            else:
+                got = ctx.real('read', lambda: (reader * op['k'])[a:b])
+                ref = (A * op['k'])[a:b]
+            ctx.ev(step, 'touch', np.asarray(got))
+            ctx.check(_eq(got, ref), 'two-axis-read-between-routes',
+                      lambda: {'step': step, 'got': _describe(got), 'expected': _describe(ref)})
+            ctx.probe('reader_used_between_routes')
         elif k == 'export':
             ctx.op('export')
             arr = export(step, op['cache'], str(step))
